@@ -200,8 +200,9 @@ def check_normpath(tier, verdict, cov, scratch):
         "kernel_per_cwd": kr["per_cwd"], "kernel_mismatch": len(kr["bad"]),
     }
     samples = []
-    for x in ("a//b/../.b/", "/../a/./b", "../a/../../b", "...//a"):
-        if x in set(dom):
+    domset = set(dom)
+    for x in ("a//./b", "/../a/", "a/../..", "...//a", ".a/../", "../a/../../b"):
+        if x in domset:
             samples.append({"fn": "normpath", "input": x, "redo": got[dom.index(x)], "reference": e4.ref_clean(x)})
     cov["samples"] += samples
     cov["evaluations"] += len(dom) + len(outs) + kr["stat_ok"]
@@ -288,6 +289,10 @@ def judge_relpath(cwd_abs, t, base, ans):
         return "noclaim", None            # a base that is not an existing directory: nothing to ask the kernel
     j = join(base, rel)
     lid_j, par_j, name_j = entry(j)
+    if rel in ("", "."):
+        # "base itself": base is used as a directory, so it is the directory it denotes (symlink followed),
+        # not the directory entry that happens to spell it
+        lid_j = e4.stat_id(base)
     if lid_t is not None:
         if lid_j != lid_t:
             return "bad", {"why": "joined path is a different entry", "rel": rel, "joined": j, "lstat_t": lid_t,
